@@ -37,11 +37,11 @@ DEFAULT_ENV = {
 
 
 class Faults:
-    """Fault plan.  Two modes:
-      explicit: plan["sites"] = [{"kind":..., "n": ordinal of eligible site of that kind, ...}]
-                (no Chooser draws; used by the kill-point sweep so that the prefix of the
-                run is identical to the pilot)
-      random:   plan["p"] = {kind: probability per eligible site}, plan["budget"] = max faults
+    """Fault plan.
+      plan["kinds"]  kinds whose eligible sites are counted (and may fire)
+      plan["sites"]  explicit faults [{"kind":..., "n": ordinal among the eligible sites of that kind, ...}]
+                     (no Chooser draws before the fault: the prefix of the run equals the fault-free pilot)
+      plan["p"]      {kind: probability per eligible site} for seeded random placement, plan["budget"] faults max
     """
 
     def __init__(self, w, plan):
@@ -49,19 +49,15 @@ class Faults:
         self.plan = plan or {}
         self.p = dict(self.plan.get("p", {}))
         self.budget = int(self.plan.get("budget", 0))
-        self.sites = list(self.plan.get("sites", []))
+        self.sites = [dict(s) for s in self.plan.get("sites", [])]
+        self.kinds = set(self.plan.get("kinds", [])) | set(self.p) | {s["kind"] for s in self.sites}
         self.counters = {}
         self.fired = []
-        self.count_only = bool(self.plan.get("count_only", False))
-        self.site_log = [] if self.plan.get("log_sites") else None
         self.series = {}
 
     def _decide(self, kind, vp, detail=None):
         n = self.counters.get(kind, 0)
         self.counters[kind] = n + 1
-        if self.site_log is not None:
-            self.site_log.append((kind, n, vp.role if vp is not None else None, vp.kind_ord if vp is not None else None,
-                                  detail))
         for s in self.sites:
             if s["kind"] == kind and s["n"] == n and not s.get("_done"):
                 s["_done"] = True
@@ -81,33 +77,40 @@ class Faults:
         w.fault_fired(kind)
         self.fired.append({"kind": kind, "n": s.get("n"), "vp": vp.id if vp is not None else None,
                            "role": vp.role if vp is not None else None, "detail": _short(detail),
-                           "seq": w.seq})
-        w.emit("fault", vp, fault=kind, n=s.get("n"), detail=_short(detail))
+                           "seq": w.seq, "mode": s.get("mode")})
+        w.emit("fault", vp, fault=kind, n=s.get("n"), detail=_short(detail), mode=s.get("mode"))
 
     # -- yield-point faults -------------------------------------------------
     def at_yield(self, vp, kind, detail):
         w = self.w
-        role_root = w.root_role(vp)
-        if role_root in SUBMITTER_ROLES or vp.tags.get("submitter_round"):
-            if self.sites or self.p.get("kill_submitter"):
-                if self._decide("kill_submitter", vp, (kind, _short(detail))):
-                    victim = vp
-                    if self.plan.get("kill_submitter_tree", True):
-                        # kill the whole command tree the submitter round belongs to,
-                        # but not an enclosing node
-                        while victim.parent is not None and victim.parent.role != "node":
-                            victim = victim.parent
-                    w.request_kill(victim, "fault:kill_submitter", True)
-                    return
-        if role_root == "node" and not w.in_submitter_subtree(vp):
-            if self.sites or self.p.get("kill_node"):
-                if self._decide("kill_node", vp, (kind, _short(detail))):
+        kinds = self.kinds
+        if "kill_submitter" in kinds and w.in_submitter_subtree(vp):
+            s = self._decide("kill_submitter", vp, (kind, _short(detail)))
+            if s:
+                victim = vp
+                scope = s.get("scope") or "command"
+                x = vp
+                while x is not None:
+                    if x.role in SUBMITTER_ROLES:
+                        victim = x
+                    x = x.parent
+                if scope == "node" and w.node_job(vp) is not None:
                     j = w.node_job(vp)
-                    why = self.plan.get("node_end_state") or w.ch.pick(
-                        ["NODE_FAIL", "TIMEOUT", "PREEMPTED", "OUT_OF_MEMORY", "FAILED"], "node_end_state")
-                    if j is not None:
-                        w.after(0.0, lambda: w.slurm.end_abnormally(j, why), "fault_kill_node")
-                    return
+                    w.after(0.0, lambda: w.slurm.end_abnormally(j, "TIMEOUT"), "fault_kill_node")
+                    # the vproc itself stops here, before the operation
+                    w.request_kill(victim, "fault:kill_submitter", True)
+                else:
+                    w.request_kill(victim, "fault:kill_submitter", True)
+                return
+        if "kill_node" in kinds and w.node_job(vp) is not None and not w.in_submitter_subtree(vp):
+            s = self._decide("kill_node", vp, (kind, _short(detail)))
+            if s:
+                j = w.node_job(vp)
+                why = s.get("state") or w.ch.pick(
+                    ["NODE_FAIL", "TIMEOUT", "PREEMPTED", "OUT_OF_MEMORY", "FAILED", "CANCELLED"], "node_end_state")
+                w.after(0.0, lambda: w.slurm.end_abnormally(j, why), "fault_kill_node")
+                w.request_kill(j.node_vp, "fault:kill_node", True)
+                return
         pst = w.envk["p_stall"]
         if pst > 0 and w.ch.flip(pst, "stall"):
             d = w.ch.delay(1.0, w.envk["stall_max"], "stall_len", log=True)
@@ -116,12 +119,12 @@ class Faults:
             w.sleep(vp, d)
 
     def lock(self, vp, path):
-        if not (self.sites or self.p.get("lock_timeout")):
+        if "lock_timeout" not in self.kinds or not self.w.in_submitter_subtree(vp):
             return False
         return self._decide("lock_timeout", vp, self.w.rel(path)) is not None
 
     def write(self, vp, path, n):
-        if not (self.sites or self.p.get("write_fail")):
+        if "write_fail" not in self.kinds or not self.w.in_submitter_subtree(vp):
             return None
         s = self._decide("write_fail", vp, self.w.rel(path))
         if s is None:
@@ -129,7 +132,7 @@ class Faults:
         keep = s.get("keep")
         if keep is None:
             keep = self.w.ch.choose(3, None, "write_keep")
-            keep = {0: 0, 1: n // 2, 2: max(0, n - 1)}[keep]
+        keep = {0: 0, 1: n // 2, 2: max(0, n - 1)}.get(keep, 0)
         return min(keep, n), errno.EDQUOT
 
     def op(self, vp, name, path):
@@ -137,7 +140,7 @@ class Faults:
 
     # -- command faults -------------------------------------------------------
     def _series(self, kind, vp, argv, attempt):
-        """Decide once per retry series how many attempts fail."""
+        """Decide once per retry series how the attempts fail."""
         key = (kind, vp.id)
         if attempt == 1:
             s = self._decide(kind, vp, _short(argv))
@@ -151,6 +154,8 @@ class Faults:
             if mode == "k":
                 k = s.get("k") or (1 + self.w.ch.choose(6, None, kind + "_k"))
             self.series[key] = (mode, k)
+            self.fired[-1]["mode"] = mode
+            self.fired[-1]["k"] = k
         st = self.series.get(key)
         if st is None:
             return None
@@ -162,17 +167,17 @@ class Faults:
         return mode  # "permanent" | "garbage"
 
     def sbatch(self, vp, argv, attempt, info):
-        if not (self.sites or self.p.get("sbatch_fail")):
+        if "sbatch_fail" not in self.kinds:
             return None
         return self._series("sbatch_fail", vp, argv, attempt)
 
     def squeue(self, vp, argv, attempt):
-        if not (self.sites or self.p.get("squeue_fail")):
+        if "squeue_fail" not in self.kinds:
             return None
         return self._series("squeue_fail", vp, argv, attempt)
 
     def scancel(self, vp, argv):
-        if not (self.sites or self.p.get("scancel_fail")):
+        if "scancel_fail" not in self.kinds:
             return False
         return self._decide("scancel_fail", vp, _short(argv)) is not None
 
@@ -344,19 +349,15 @@ class SimWorld(World):
         self.kill(vp, reason, True)
 
     def cmd_attempt(self, vp, argv):
-        key = (vp.id, tuple(argv))
+        """Ordinal of this execution within a retry series (same vproc, same argv, back to back)."""
+        key = tuple(argv)
         last = self.attempts.get(vp.id)
-        if last is not None and last[0] == key[1] and self.now - last[2] < 11.0 and last[3]:
-            n = last[1] + 1
-        else:
-            n = 1
-        self.attempts[vp.id] = [key[1], n, self.now, True]
+        n = last[1] + 1 if last is not None and last[0] == key else 1
+        self.attempts[vp.id] = (key, n)
         return n
 
-    def cmd_succeeded(self, vp):
-        last = self.attempts.get(vp.id)
-        if last is not None:
-            last[3] = False
+    def cmd_series_end(self, vp):
+        self.attempts.pop(vp.id, None)
 
     # ------------------------------------------------------------------ knobs
     def knob_latency(self, which):
